@@ -2,7 +2,7 @@
    Property theorems only: each is closed by `exact <lemma>` (lemmas in Proofs/HolmP.v,
    Proofs/PenetranceP.v). *)
 From Coq Require Import ZArith List Bool Arith Lia Permutation Sorted.
-From CTM Require Import Base.Sx Model.Holm Model.Penetrance Proofs.HolmP Proofs.PenetranceP.
+From CTM Require Import Base.Sx Model.Holm Model.Penetrance Proofs.HolmP Proofs.PenetranceP Proofs.BoringP.
 Import ListNotations.
 Open Scope Z_scope.
 
@@ -82,14 +82,10 @@ Proof.
 Qed.
 
 (* Skipping uninteresting t-values.
-   FULL STATEMENT (c11_boring_t_sound): under the CDF hypotheses of DESIGN section 6 (Student and normal
-   CDFs monotone and symmetric, t_cdf(-b, nu) >= norm_cdf(-b), norm_cdf(-boring_t) >= p_th/2)
-   assigning p = 1 to every gene with |t| <= boring_t changes no decision at p_th.
-   PROVED: the Holm half - whenever the exact p-values p and the p-values p' actually used
-   agree except at positions where BOTH are >= p_th, the decision vectors of the restricted
-   and of the full correction coincide.
-   MISSING: deriving "|t| <= boring_t => exact p >= p_th" from the CDF hypotheses (the CDFs
-   are not modelled; the harness checks norm_cdf(-boring_t) >= p_th/2 numerically per run). *)
+   FULL STATEMENT: c11_boring_t_sound below (CDF half c11_boring_exact_p_ge composed with this one).
+   c11_boring_t_sound_partial is the Holm half - whenever the exact p-values p and the p-values p'
+   actually used agree except at positions where BOTH are >= p_th, the decision vectors of the
+   restricted and of the full correction coincide. *)
 Theorem c11_boring_t_sound_partial : forall S T p p',
   Forall (fun x => 0 <= x <= S) p -> Forall (fun x => 0 <= x <= S) p' -> T <= S ->
   Forall2 (fun v v' => v = v' \/ (T <= v /\ T <= v')) p p' ->
@@ -105,6 +101,102 @@ Proof.
   split; [|vm_compute; reflexivity].
   repeat (constructor; [first [left; reflexivity | right; lia]|]). constructor.
 Qed.
+
+(* The CDF half and the full statement.
+   Vocabulary (Proofs/BoringP.v; S = 2*H is the common denominator of CDF values, p-values and
+   p_th = T/S, so H/S = 0.5; a gene is (nu, t), t an integer over any common denominator):
+     p_of_cdf H lo hi c  := the code's p-value from a CDF value: NaN (None) -> 0.5, np.clip to
+                            [lo, hi] = [eps, ceil], then 2*cdf if cdf < 0.5 else 2*(1 - cdf)
+                            (i.e. the two-sided p = 2*min(cdf, 1 - cdf))
+     exact_p t_cdf H lo hi (nu, t) := p_of_cdf H lo hi (t_cdf nu t)       (exact_welch_t_test)
+     boring b (nu, t)    := not (t < -b or t > b)                          (|t| <= boring_t)
+     skip_p ... b g      := p_of_cdf of 0.5 if boring b g else exact_p g   (approximate_welch_t_test)
+   t_cdf : nu -> t -> option Z and norm_cdf : t -> Z stand for scipy.stats.t.cdf / norm.cdf.
+   The premises marked (scipy) are ASSUMPTIONS ABOUT SCIPY'S FUNCTIONS, assumed and not proved:
+     - t.cdf(., nu) is monotone in t,
+     - t.cdf(-t, nu) = 1 - t.cdf(t, nu),
+     - whether t.cdf is NaN depends on nu only,
+     - the Student lower tail is at least the normal one: t.cdf(-x, nu) >= norm.cdf(-x) for x >= 0.
+   The premise T <= 2 * norm_cdf (-b) is how boring_t_from_p_value chooses boring_t (the harness
+   checks it numerically on every run); the others describe the setting (eps <= 0.5 <= ceil <= 1,
+   p_th <= 1, boring_t >= 0). *)
+
+(* |t| <= boring_t => the exact two-sided p-value of the gene is >= p_th *)
+Theorem c11_boring_exact_p_ge : forall (H lo hi T b : Z) (t_cdf : Z -> Z -> option Z) (norm_cdf : Z -> Z),
+  0 < H -> 0 <= lo <= H -> H <= hi <= 2 * H -> T <= 2 * H -> 0 <= b ->
+  T <= 2 * norm_cdf (- b) ->
+  (* scipy *) (forall nu a a' c c', a <= a' -> t_cdf nu a = Some c -> t_cdf nu a' = Some c' -> c <= c') ->
+  (* scipy *) (forall nu a c, t_cdf nu a = Some c -> t_cdf nu (- a) = Some (2 * H - c)) ->
+  (* scipy *) (forall nu a a', t_cdf nu a = None -> t_cdf nu a' = None) ->
+  (* scipy *) (forall nu x c, 0 <= x -> t_cdf nu (- x) = Some c -> norm_cdf (- x) <= c) ->
+  forall nu t, - b <= t <= b -> T <= exact_p t_cdf H lo hi (nu, t).
+Proof. exact boring_exact_ge. Qed.
+Print Assumptions c11_boring_exact_p_ge.
+
+(* c11_boring_t_sound: give every gene with |t| <= boring_t ANY p-value >= p_th (in [0, 1]) and keep
+   the exact p-value of the others: the exact p-values are in [0, 1] and those of the skipped
+   genes are >= p_th; no decision `corrected p < p_th` of the full Holm correction changes, and
+   the restricted correction run on the replaced values decides exactly like the full
+   correction on the exact values *)
+Theorem c11_boring_t_sound : forall (H lo hi T b : Z) (t_cdf : Z -> Z -> option Z) (norm_cdf : Z -> Z),
+  0 < H -> 0 <= lo <= H -> H <= hi <= 2 * H -> T <= 2 * H -> 0 <= b ->
+  T <= 2 * norm_cdf (- b) ->
+  (* scipy *) (forall nu a a' c c', a <= a' -> t_cdf nu a = Some c -> t_cdf nu a' = Some c' -> c <= c') ->
+  (* scipy *) (forall nu a c, t_cdf nu a = Some c -> t_cdf nu (- a) = Some (2 * H - c)) ->
+  (* scipy *) (forall nu a a', t_cdf nu a = None -> t_cdf nu a' = None) ->
+  (* scipy *) (forall nu x c, 0 <= x -> t_cdf nu (- x) = Some c -> norm_cdf (- x) <= c) ->
+  forall (genes : list gene) (p' : list Z),
+  Forall (fun x => 0 <= x <= 2 * H) p' ->
+  Forall2 (fun g v' => if boring b g then T <= v' else v' = exact_p t_cdf H lo hi g) genes p' ->
+  let p := map (exact_p t_cdf H lo hi) genes in
+  Forall (fun x => 0 <= x <= 2 * H) p /\
+  Forall2 (fun g v => boring b g = true -> T <= v) genes p /\
+  map (fun v => v <? T) (correct_ttest (2 * H) 0 p) = map (fun v => v <? T) (correct_ttest (2 * H) 0 p') /\
+  map (fun v => v <? T) (approx_correct_ttest (2 * H) T p') = map (fun v => v <? T) (correct_ttest (2 * H) 0 p).
+Proof. exact boring_t_sound. Qed.
+Print Assumptions c11_boring_t_sound.
+
+(* ... in particular for the values the code uses (cdf = 0.5, hence p = 1, for the skipped genes) *)
+Theorem c11_boring_t_sound_code : forall (H lo hi T b : Z) (t_cdf : Z -> Z -> option Z) (norm_cdf : Z -> Z),
+  0 < H -> 0 <= lo <= H -> H <= hi <= 2 * H -> T <= 2 * H -> 0 <= b ->
+  T <= 2 * norm_cdf (- b) ->
+  (* scipy *) (forall nu a a' c c', a <= a' -> t_cdf nu a = Some c -> t_cdf nu a' = Some c' -> c <= c') ->
+  (* scipy *) (forall nu a c, t_cdf nu a = Some c -> t_cdf nu (- a) = Some (2 * H - c)) ->
+  (* scipy *) (forall nu a a', t_cdf nu a = None -> t_cdf nu a' = None) ->
+  (* scipy *) (forall nu x c, 0 <= x -> t_cdf nu (- x) = Some c -> norm_cdf (- x) <= c) ->
+  forall genes : list gene,
+  let p := map (exact_p t_cdf H lo hi) genes in
+  let p' := map (skip_p t_cdf H lo hi b) genes in
+  (forall g, boring b g = true -> skip_p t_cdf H lo hi b g = 2 * H) /\
+  map (fun v => v <? T) (correct_ttest (2 * H) 0 p) = map (fun v => v <? T) (correct_ttest (2 * H) 0 p') /\
+  map (fun v => v <? T) (approx_correct_ttest (2 * H) T p') = map (fun v => v <? T) (correct_ttest (2 * H) 0 p).
+Proof. exact boring_t_sound_code. Qed.
+Print Assumptions c11_boring_t_sound_code.
+
+(* the premises are satisfiable together: a toy pair of CDFs over S = 64 (0.5 = 32/64),
+     t_cdf(t, nu) = clamp(32 + 8t, 1, 63)/64, NaN for nu <= 0;  norm_cdf(t) = clamp(32 + 16t, 0, 64)/64,
+   clip to [1/64, 63/64], p_th = 20/64, boring_t = 1; five genes: two skipped (t = 0, t = -1:
+   exact p = 1 and 48/64, both >= p_th), t = 3 (p = 16/64, not significant after correction),
+   one NaN (p = 1), t = -4 (p = 2/64, significant) *)
+Example c11_boring_nonvacuous_cdf :
+  0 < 32 /\ 0 <= 1 <= 32 /\ 32 <= 63 <= 2 * 32 /\ 20 <= 2 * 32 /\ 0 <= 1 /\
+  20 <= 2 * toy_norm_cdf (- 1) /\
+  (forall nu a a' c c', a <= a' -> toy_t_cdf nu a = Some c -> toy_t_cdf nu a' = Some c' -> c <= c') /\
+  (forall nu a c, toy_t_cdf nu a = Some c -> toy_t_cdf nu (- a) = Some (2 * 32 - c)) /\
+  (forall nu a a', toy_t_cdf nu a = None -> toy_t_cdf nu a' = None) /\
+  (forall nu x c, 0 <= x -> toy_t_cdf nu (- x) = Some c -> toy_norm_cdf (- x) <= c).
+Proof.
+  destruct toy_hyps as (H1 & H2 & H3 & H4 & H5).
+  repeat split; try lia; assumption.
+Qed.
+Example c11_boring_nonvacuous_values :
+  let genes : list gene := [(5, 0); (5, -1); (5, 3); (0, 2); (5, -4)] in
+  map (boring 1) genes = [true; true; false; false; false] /\
+  map (exact_p toy_t_cdf 32 1 63) genes = [64; 48; 16; 64; 2] /\
+  map (skip_p toy_t_cdf 32 1 63 1) genes = [64; 64; 16; 64; 2] /\
+  map (fun v => v <? 20) (correct_ttest 64 0 [64; 48; 16; 64; 2]) = [false; false; false; false; true] /\
+  map (fun v => v <? 20) (approx_correct_ttest 64 20 [64; 64; 16; 64; 2]) = [false; false; false; false; true].
+Proof. cbv zeta. repeat split; vm_compute; reflexivity. Qed.
 
 (* ------------------------------------------------------------------ *)
 (* The penetrance mask.  Scores are x/S.  Vocabulary (Proofs/PenetranceP.v):
